@@ -61,7 +61,18 @@ TEXT["C14"] = dict(
   note="Only well-formed definitions (start < timeout); the always-active height is an explicit override and is exempt from 'Failed is never left'; the hook VerifDeploymentStateAt only exposes the unexported per-node query.",
   ref="DESIGN.md §5 C14")
 
-READY = ["C01", "C02", "C03", "C04", "C09", "C14", "C17", "C19"]
+TEXT["C10"] = dict(
+  technique="deterministic simulation: seeded histories of transaction submissions, replacements, orphans, removals, block connects/disconnects (through the real netsync handler), restarts and clock moves against a real mempool; whole-pool invariants and replacement accounting recomputed from the harness's own amounts after every step",
+  level="After every step: no outpoint spent twice; spend index == pool; every input unspent in the chain or created by a pooled transaction; all membership views agree; orphan bounds; a rejected submission and CheckMempoolAcceptance leave membership unchanged; accepted replacements evict exactly conflicts + descendants (<=100), pay >= evicted fees + relay fee for their size at a strictly higher fee rate than each evicted transaction; and - while height and MTP have not moved backwards since admission - the pooled set in dependency order, assembled by the harness's own block builder, passes CheckConnectBlockTemplate.",
+  note="Which orphan is evicted/promoted and policy accept/reject decisions are observed, not predicted; concurrent callers (data races) are not yet covered by a registered check.",
+  ref="DESIGN.md §5 C10")
+TEXT["C12"] = dict(
+  technique="deterministic simulation: block templates generated by the real generator on seeded reachable pool states, tips and mining policies; every clause recomputed independently, then time/extra nonce updated at a later simulated clock value, the block solved and fed back through ProcessBlock",
+  level="For each template: generation succeeds when its precondition holds; parents precede children; fees and sigop costs per transaction equal values recomputed from the harness's own amounts and script shapes; coinbase pays exactly subsidy + fees; witness commitment present iff needed and equal to an independent computation; merkle root, required bits and version equal the model's; weight/sigop limits respected; after UpdateBlockTime/UpdateExtraNonce and solving, ProcessBlock accepts the block onto the tip it was built for and the pool/UTXO invariants still hold.",
+  note="Sigop cost model covers the script shapes the world generates; megabyte-scale limit cases are not generated.",
+  ref="DESIGN.md §5 C12")
+
+READY = ["C01", "C02", "C03", "C04", "C09", "C10", "C12", "C14", "C17", "C19"]
 
 def main():
     verif = os.path.dirname(os.path.abspath(__file__))
